@@ -27,6 +27,10 @@ pub struct KIn {
     pub val: u8,
 }
 
+/// a newtype whose `Hash` is identical to its field's
+#[derive(Debug, Clone, PartialEq, Eq, Hash)]
+pub struct W8(pub u8);
+
 #[memo(raw)]
 pub fn helper_raw(_db: &KDb) -> u8 {
     5
@@ -180,7 +184,7 @@ pub fn main(args: &Args) -> i32 {
     let distinct_vals: std::collections::BTreeSet<u32> = fam.iter().map(|f| f.1).collect();
     ev.set("evaluations", pairs)
         .set("distinct_nontrivial", pairs)
-        .set("rule", "every ordered pair (i,j), i≠j, of the 40-function family {module a,b}×{name f,g}×{(),(u8),(&String),(SourceId),(MemoRef)}×{u32,String}: fresh db, call i, j, i; every pair is non-trivial (two different functions with different results)")
+        .set("rule", "every ordered pair (i,j), i≠j, of the family {module a,b}×{name f,g}×{(),(u8),(i8),(W8),(&W8),(&String),(SourceId),(MemoRef)}×{u32,String} + 2 function-local scopes: fresh db, call i, j, i; every pair is non-trivial (two different functions with different results)")
         .set("family_size", fam.len())
         .set("family_distinct_results", distinct_vals.len())
         .set("relations_observed", json!(observed.iter().map(|(k, v)| json!({"differ_in": k, "pairs": v.0, "collisions": v.1})).collect::<Vec<_>>()))
